@@ -69,6 +69,15 @@ CLAIMS.update({
             "limits exact for unit weights / 2 ulp otherwise; max_step with 4e-12 relative slack; see DESIGN section 6 for what counts as changing a disabled knob"),
 })
 
+CLAIMS.update({
+    "C15": (H, "model_checking", MC,
+            "every sequence of Optimize API calls (step, step without take_best, Broyden step, solve incl. failing solves, reload first/middle/last, tag, enable/disable knob and target, clear_log) up to the depth bound on families with a non-monotone Newton iteration, an overshooting one, an inconsistent system, limits and weights; after every call every row of log() is re-evaluated independently (targets exact, penalty 1e-12), reload(i) restores row i bit-exactly, a returning step(take_best) ends within tolerance or on a minimum-penalty row of that call and never worse than it started",
+            "states are merged on the full log + containers + flags + solver state; a step that raises is not a returning step"),
+    "C16": (E, "exploration", EN,
+            "SVD.lstsq on U diag(s) V^T for every shape 1..6 x 1..6, exact orthogonal factors, singular-value patterns (full, rank-deficient, graded, scaled, repeated), rhs in/out of range, rcond and cut-off settings, judged by the Moore-Penrose characterisation on the truncated system (plus pinv cross-check) and all 2x2/2x3 matrices over {-1,0,1,2}; consistent linear problems cond<=100: first step lands on the solution (minimum-norm step when under-determined) and solve() succeeds with Broyden off/on/every 2; weight and rescale_x maps inverse on a lattice; view Jacobians vs closed form vs central differences for every return_scalar x rescale_x",
+            "finite families, stated tolerances; threshold-ambiguous truncations skipped and counted"),
+})
+
 NOT_YET = "check under construction in this session; not yet claimed"
 
 
